@@ -65,7 +65,9 @@ const (
 // CurrentVersion is the audit log entry format version.
 //   - v2 added actor/request/outcome detail fields.
 //   - v3 added ResourceDetails.SourceBucket/SourceKey for server-side copy operations.
-const CurrentVersion uint16 = 3
+//   - v4 covers SourceBucket/SourceKey with the entry hash (v3 entries recorded
+//     them outside the hash, so they could be altered without detection).
+const CurrentVersion uint16 = 4
 
 type EntryType string
 
@@ -189,6 +191,10 @@ func (e *Entry) CalculateHash() []byte {
 		writeString(buf, d.Outcome.ErrorCode)
 		writeString(buf, d.Outcome.Error)
 		binary.Write(buf, binary.BigEndian, d.Outcome.DurationMs)
+		if e.Version >= 4 {
+			writeString(buf, d.Resource.SourceBucket)
+			writeString(buf, d.Resource.SourceKey)
+		}
 	case *GroundingDetails:
 		writeBytes(buf, d.MerkleRootHash)
 		if len(d.SignatureEd25519) != ed25519.SignatureSize {
